@@ -28,7 +28,7 @@ Qed.
 
 Lemma dec_item_enc : forall i, dec_item (enc_item i) = Some i.
 Proof.
-  intros [[c r| | |]|f| |c r| | |]; try reflexivity.
+  intros [[c r| | |]|f| |c r| | | | | |]; try reflexivity.
   - unfold enc_item, dec_item. seq. rewrite dec_oN_enc. reflexivity.
   - unfold enc_item, dec_item.
     assert (E : exists l, enc_frame f = OList l).
